@@ -624,13 +624,13 @@ impl Snapshot {
             let kb: BTreeSet<_> = o.idents.keys().collect();
             return Some(format!("identifiable_elements(): only before {:?}, only after {:?}", ka.difference(&kb).collect::<Vec<_>>(), kb.difference(&ka).collect::<Vec<_>>()));
         }
-        if self.lookups != o.lookups {
-            for (k, v) in &self.lookups {
-                if o.lookups.get(k) != Some(v) {
-                    return Some(format!("get_element_by_path({k:?}): {:?} vs {:?}", v, o.lookups.get(k)));
-                }
+        // (the key sets may differ because the set of probed ghost paths grows over time: compare on the union, absent = None)
+        for k in self.lookups.keys().chain(o.lookups.keys()) {
+            let a = self.lookups.get(k).cloned().flatten();
+            let b = o.lookups.get(k).cloned().flatten();
+            if a != b && self.lookups.contains_key(k) && o.lookups.contains_key(k) {
+                return Some(format!("get_element_by_path({k:?}): {:?} vs {:?}", a, b));
             }
-            return Some("path lookups differ".into());
         }
         if self.refs != o.refs {
             for (k, v) in &self.refs {
